@@ -921,6 +921,8 @@ class XFolder(Folder):
             if isinstance(recv, dict) and f.attr in ("keys", "values", "items"):
                 r = list(r)
             return r
+        if recv is None:
+            raise AttributeError(f"'NoneType' object has no attribute '{f.attr}'")  # the program's own fault, e.g. an option that was not given
         raise NotConst(f"method {f.attr} of {type(recv).__name__}")
 
 
@@ -1021,6 +1023,7 @@ class Runtime:
                 key = (fn.name, args, tuple(sorted(kw.items())))
                 hash(key)
                 if key in self.world.memo:
+                    self.world.events.append(("memo-hit", fn.name, fn.lineno, decs[0]))
                     return self.world.memo[key]
             r = self.call_function(fn, args, kw, closure)
             if memo:
@@ -1293,6 +1296,7 @@ class FuncEval(BlockEval):
 class Outcome:
     def __init__(self, kind: str, value: Any = None, world: Optional[World] = None):
         self.kind, self.value, self.world = kind, value, world  # kind: 'return' | 'raise' | 'exit' | 'unknown'
+        self.hint_line: Optional[int] = None  # line of the construct an explanation points at
 
     def __repr__(self):
         return f"{self.kind}:{self.value!r}"
@@ -1303,7 +1307,7 @@ def evaluate(repo, tree: ast.Module, fname: str, args: Sequence[Any], kw: Dict[s
         rt = Runtime(repo, tree, world, overrides, cov, entered)
         if fname not in rt.funcs:
             return Outcome("unknown", f"function {fname} not found", world)
-        return Outcome("return", rt.call_function(rt.funcs[fname], list(args), dict(kw)), world)
+        return Outcome("return", rt.module_env[fname](*args, **kw), world)  # through its decorators (a memoised anchor is called as its callers call it)
     except Unknown as ex:
         return Outcome("unknown", str(ex), world)
     except SystemExit as ex:
@@ -1348,6 +1352,16 @@ def base_doc() -> list:
             ["tail", ["k"], [["v"]]],
         ]],
         ["B2", [["cat2", ["a", "b"], [["x", "y"]]]]],
+    ]
+
+
+def case_doc() -> list:
+    """Names and values that differ only in letter case or by a surrounding blank: the library compares them exactly."""
+    return [
+        ["B1", [
+            ["cat", ["a", "A", "b"], [["1", "2", "p"], ["3", "4", "P"], ["5", "6", " p"], ["7", "8", "p"], ["9", "0", "p "]]],
+            ["Cat", ["a", "b"], [["x", "y"]]],
+        ]],
     ]
 
 
@@ -1454,6 +1468,8 @@ def check_copy(chk, fi) -> Optional[str]:
         ("the category is absent", text, ("nocat", "a", "b")),
         ("the source item is absent (target present)", text, ("cat", "zz", "b")),
         ("source and target items are absent", text, ("cat", "zz", "yy")),
+        ("the category exists only with other letter case", text, ("CAT", "a", "b")),
+        ("the source item exists only with other letter case", text, ("cat", "B", "a")),
     ]
     for tag, t, a in exits:
         o = _run_lib(repo, tree, fi.qualname, t, a, cov, entered)
@@ -1473,6 +1489,8 @@ def check_copy(chk, fi) -> Optional[str]:
         ("source = target", doc, ("cat", "b", "b")),
         ("first category of the block", doc, ("head", "y", "x")),
         ("category without rows, new target", norows, ("cat", "a", "n")),
+        ("categories and items that differ only in letter case", case_doc(), ("cat", "a", "A")),
+        ("new target that differs from an item only in letter case", case_doc(), ("Cat", "b", "B")),
     ]
     for tag, d, a in edits:
         t = text_of(d)
@@ -1482,29 +1500,65 @@ def check_copy(chk, fi) -> Optional[str]:
             continue
         want = want_copy(d, *a)
         bad = _judge_doc(o, want, a[0], a[1], a[2], t)
-        chk.expect(bad is None, "edit-eval", _site(fi, (_event(o, "defaulted") or [None])[-1]) if bad else fi.where, f"copy {a[1]} -> {a[2]} ({tag}): every row's target equals its source, nothing else changes, the written document contains the edit", f"copy {a[1]} -> {a[2]} in `{a[0]}` ({tag}): {bad}", K(fi, f"edit-eval:{tag}"), found=_short(o.value))
+        chk.expect(bad is None, "edit-eval", _site(fi, (_event(o, "defaulted") or [None])[-1] or o.hint_line) if bad else fi.where, f"copy {a[1]} -> {a[2]} ({tag}): every row's target equals its source, nothing else changes, the written document contains the edit", f"copy {a[1]} -> {a[2]} in `{a[0]}` ({tag}): {bad}", K(fi, f"edit-eval:{tag}"), found=_short(o.value))
     # -- a second call in the same process starts from the text again ----------------------------------------------------------------
-    w = World()
-    o1 = _run_lib(repo, tree, fi.qualname, text, ("cat", "a", "n1"), cov, entered, w)
-    o2 = _run_lib(repo, tree, fi.qualname, text, ("cat", "b", "n2"), cov, entered, w)
-    o3 = _run_lib(repo, tree, fi.qualname, text, ("cat", "b", "n2"), cov, entered)
-    if "unknown" in (o1.kind, o2.kind, o3.kind):
-        why = why or f"repeated call: {[o.value for o in (o1, o2, o3) if o.kind == 'unknown'][0]}"
-    else:
-        _repeat(chk, fi, o2, o3, "copy a -> n1, then copy b -> n2", "cat", "b", "n2")
+    seq = [
+        ("copy a -> n1", ("cat", "a", "n1"), "a", "n1"),
+        ("copy b -> n2 (another source)", ("cat", "b", "n2"), "b", "n2"),
+        ("copy a -> n3 (the first source again, another target)", ("cat", "a", "n3"), "a", "n3"),
+        ("copy a -> n1 (the first call again)", ("cat", "a", "n1"), "a", "n1"),
+    ]
+    why = why or _repeat_calls(chk, fi, repo, tree, text, seq, cov, entered)
     _coverage(chk, fi, tree, cov, entered, why)
     return why
 
 
-def _repeat(chk, fi, second: Outcome, fresh: Outcome, what: str, cat, src, dst) -> None:
-    """The same call as the second of two calls in one process and as a first call: the results must agree."""
+def _disown(v: Any) -> None:
+    """The caller owns what it was handed and may change it: mutable parts of a result are emptied after they were looked at."""
+    for x in v if isinstance(v, tuple) else (v,):
+        if type(x) in (dict, list, set, HSet):
+            x.clear()
+
+
+def _repeat_calls(chk, fi, repo, tree, text, seq, cov, entered) -> Optional[str]:
+    """The calls of `seq` made one after the other in one process, on the same text; every call after the first is compared
+    with the same call made as the only one of a fresh process: no state of an earlier call (a cache of parsed containers,
+    a memoised result whose mutable part the caller changed, a module-level container) may reach a later one."""
+    w = World()
+    done: List[str] = []
+    for k, (label, args, src, dst) in enumerate(seq):
+        n_ev = len(w.events)
+        o = _run_lib(repo, tree, fi.qualname, text, args, cov, entered, w)
+        if o.kind == "unknown":
+            return f"repeated call: {o.value}"
+        if k:
+            fresh = _run_lib(repo, tree, fi.qualname, text, args, cov, entered)
+            if fresh.kind == "unknown":
+                return f"repeated call: {fresh.value}"
+            hit = next((e for e in w.events[n_ev:] if e[0] == "memo-hit"), None)
+            _repeat(chk, fi, o, fresh, "; ".join(done) + "; then " + label, args[0], src, dst, hit, k)
+            _disown(fresh.value)
+        _disown(o.value)
+        done.append(label)
+    return None
+
+
+def _repeat(chk, fi, second: Outcome, fresh: Outcome, what: str, cat, src, dst, hit: Optional[Tuple] = None, k: int = 1) -> None:
+    """The same call as a later call of a process and as the only call of a fresh one: the results must agree."""
     same = second.kind == fresh.kind and second.value == fresh.value
     how = ""
     if not same:
-        a, b = (second.value[0] if isinstance(second.value, tuple) else second.value), (fresh.value[0] if isinstance(fresh.value, tuple) else fresh.value)
+        a, b = (second.value[0] if isinstance(second.value, tuple) and second.value else second.value), (fresh.value[0] if isinstance(fresh.value, tuple) and fresh.value else fresh.value)
         da, db = parse(a), parse(b)
-        how = (doc_diff(da, db, cat, src, dst) if da is not None and db is not None else None) or f"{_short(second.value)} instead of {_short(fresh.value)}"
-    chk.expect(same, "repeat-eval", fi.where, f"a call gives the same result as the second call in a process as it gives as the first ({what}): no state survives a call", f"two calls with the same text ({what}): the second call does not start from the text again - compared with the same call made first, {how}; state of the first call (a cache, a module-level container) leaks into the second", K(fi, "repeat-eval"))
+        if a == b and isinstance(second.value, tuple) and isinstance(fresh.value, tuple) and len(second.value) == len(fresh.value) == 2:
+            how = f"the document is the same but the returned mapping is {_short(second.value[1])} instead of {_short(fresh.value[1])}"
+        else:
+            how = (doc_diff(da, db, cat, src, dst) if da is not None and db is not None else None) or f"the result is {_short(second.value)} instead of {_short(fresh.value)}"
+        if hit is not None:
+            how += f" - the call gets the result of `{hit[1]}` (line {hit[2]}) from its `@{hit[3]}` instead of computing it again, and the object handed out the first time was changed since (the parsed containers are edited in place; a returned mapping belongs to the caller)"
+        else:
+            how += " - state of an earlier call (a cache, a module-level container) leaks into this one"
+    chk.expect(same, "repeat-eval", _site(fi, hit[2]) if (hit is not None and not same) else fi.where, f"a call gives the same result late in a process as it gives in a fresh one ({what}): no state survives a call", f"calls with the same text in one process ({what}): the last call does not start from the text again - compared with the same call made in a fresh process, {how}", K(fi, f"repeat-eval:{k}"))
 
 
 def _unchanged(o: Outcome, text: str) -> Optional[str]:
@@ -1533,10 +1587,31 @@ def _judge_doc(o: Outcome, want, cat, src, dst, text: Optional[str] = None) -> O
         return f"the result {_short(o.value)} is not the serialised document"
     d = doc_diff(got, want, cat, src, dst)
     if d is not None:
+        d += _row_hint(o, got, want, cat)
         e = _event(o, "defaulted")
         if e is not None:
             d += f" - DataCategory.getValueOrDefault('{e[1]}', {e[2]}) hands out its default {e[4]!r} for the stored value {e[3]!r}: it treats '.', '?' and None as missing values, so mmCIF null markers are rewritten on the way"
     return d
+
+
+def _row_hint(o: Outcome, got, want, cat) -> str:
+    """Explanation only: a test that is evaluated once per row and separates exactly the rows that come out wrong from the others."""
+    g, w = _find(got, cat), _find(want, cat)
+    if not g or not w or len(g[2]) != len(w[2]) or o.world is None:
+        return ""
+    n = len(w[2])
+    bad = [k for k in range(n) if g[2][k] != w[2][k]]
+    if not bad or len(bad) == n:
+        return ""
+    by_test: Dict[Tuple[int, str], List[bool]] = {}
+    for e in o.world.events:
+        if e[0] == "if":
+            by_test.setdefault((e[1], e[3]), []).append(e[2])
+    for (line, src), outs in sorted(by_test.items()):
+        if len(outs) == n and len({outs[k] for k in bad}) == 1 and all(outs[k] != outs[bad[0]] for k in range(n) if k not in bad):
+            o.hint_line = line
+            return f" - the rows that come out wrong ({', '.join(str(k) for k in bad)}) are exactly the rows for which `{src}` (line {line}) is {outs[bad[0]]}: the edit depends on the value of the row"
+    return ""
 
 
 def _event(o: Outcome, kind: str) -> Optional[Tuple]:
@@ -1577,6 +1652,8 @@ def check_replace(chk, fi) -> Optional[str]:
         ("the text holds no data block", "", ("cat", "b", "XYZ")),
         ("the category is absent", text, ("nocat", "b", "XYZ")),
         ("the item is absent", text, ("cat", "zz", "XYZ")),
+        ("the category exists only with other letter case", text, ("Cat", "b", "XYZ")),
+        ("the item exists only with other letter case", text, ("cat", "B", "XYZ")),
     ]
     for tag, t, a in exits:
         o = _run_lib(repo, tree, fi.qualname, t, a, cov, entered)
@@ -1591,6 +1668,8 @@ def check_replace(chk, fi) -> Optional[str]:
         ("first item of the first category", doc, ("head", "x", "0123")),
         ("a value equal to a symbol", [["B1", [["cat", ["a"], [["Y"], ["X"], ["Y"]]]]]], ("cat", "a", "XY")),
         ("category without rows", [["B1", [["cat", ["a", "b"], []]]]], ("cat", "a", "XY")),
+        ("values that differ only in letter case or by a blank are distinct values", case_doc(), ("cat", "b", "WXYZ")),
+        ("items that differ only in letter case", case_doc(), ("cat", "A", "0123456789")),
     ]
     for tag, d, a in edits:
         t = text_of(d)
@@ -1600,7 +1679,7 @@ def check_replace(chk, fi) -> Optional[str]:
             continue
         want_doc, want_map = want_replace(d, *a)
         bad = _judge_replace(o, want_doc, want_map, a[0], a[1], t)
-        chk.expect(bad is None, "edit-eval", fi.where, f"replace `{a[1]}` with {a[2]!r} ({tag}): the item is the image of the first-seen mapping {want_map}, which is returned; nothing else changes", f"replace `{a[1]}` of `{a[0]}` with {a[2]!r} ({tag}): {bad}", K(fi, f"edit-eval:{tag}"), found=_short(o.value))
+        chk.expect(bad is None, "edit-eval", _site(fi, o.hint_line) if bad else fi.where, f"replace `{a[1]}` with {a[2]!r} ({tag}): the item is the image of the first-seen mapping {want_map}, which is returned; nothing else changes", f"replace `{a[1]}` of `{a[0]}` with {a[2]!r} ({tag}): {bad}", K(fi, f"edit-eval:{tag}"), found=_short(o.value))
     # the default alphabet: as many distinct symbols as the signature promises, no blank
     try:
         rt = Runtime(repo, tree, World())
@@ -1631,16 +1710,20 @@ def check_replace(chk, fi) -> Optional[str]:
         if o.kind != "return":
             chk.ok("mapping-total", fi.where, f"{len(distinct)} distinct values, alphabet {a[2]!r} ({tag}): the call fails ({o.value}) - no partly substituted file is produced")
             continue
-        bad = _judge_total(o, d, a[0], a[1], col)
-        chk.expect(bad is None, "mapping-total", fi.where, f"{len(distinct)} distinct values, alphabet {a[2]!r} ({tag}): the result is still a total injective substitution", f"item `{a[1]}` has {len(distinct)} distinct values {distinct} but the alphabet {a[2]!r} only {len(a[2])} symbols ({tag}); the call returns normally and {bad}", K(fi, f"mapping-total:{tag}"), found=_short(o.value))
-    w = World()
-    o1 = _run_lib(repo, tree, fi.qualname, text, ("cat", "b", "WXYZ"), cov, entered, w)
-    o2 = _run_lib(repo, tree, fi.qualname, text, ("cat", "a", "vwxyz"), cov, entered, w)
-    o3 = _run_lib(repo, tree, fi.qualname, text, ("cat", "a", "vwxyz"), cov, entered)
-    if "unknown" in (o1.kind, o2.kind, o3.kind):
-        why = why or f"repeated call: {[o.value for o in (o1, o2, o3) if o.kind == 'unknown'][0]}"
-    else:
-        _repeat(chk, fi, o2, o3, "replace b, then replace a", "cat", None, "a")
+        bad = _judge_total(o, d, a[0], a[1], col, a[2])
+        site = fi.where
+        c = _event(o, "caught")
+        if bad is not None and c is not None:
+            bad += f" - `{c[5]}` (line {c[4]}) swallows the {c[1]} ({c[2]}) raised at line {c[3]}, so running out of symbols no longer stops the call"
+            site = _site(fi, c[4])
+        chk.expect(bad is None, "mapping-total", site, f"{len(distinct)} distinct values, alphabet {a[2]!r} ({tag}): the result is still a total injective substitution into the alphabet", f"item `{a[1]}` has {len(distinct)} distinct values {distinct} but the alphabet {a[2]!r} only {len(a[2])} symbols ({tag}); the call returns normally and {bad}", K(fi, f"mapping-total:{tag}"), found=_short(o.value))
+    seq = [
+        ("replace b with 'WXYZ'", ("cat", "b", "WXYZ"), None, "b"),
+        ("replace a with 'vwxyz' (another item)", ("cat", "a", "vwxyz"), None, "a"),
+        ("replace b with 'ZYXW' (the first item again, another alphabet)", ("cat", "b", "ZYXW"), None, "b"),
+        ("replace b with 'WXYZ' (the first call again)", ("cat", "b", "WXYZ"), None, "b"),
+    ]
+    why = why or _repeat_calls(chk, fi, repo, tree, text, seq, cov, entered)
     _coverage(chk, fi, tree, cov, entered, why)
     return why
 
@@ -1657,13 +1740,15 @@ def _judge_replace(o: Outcome, want_doc, want_map, cat, col, text: Optional[str]
         return f"the first component {_short(o.value[0])} is not the serialised document"
     d = doc_diff(got, want_doc, cat, None, col)
     if d is not None:
-        return d
+        return d + _row_hint(o, got, want_doc, cat)
     if o.value[1] != want_map:
         return f"the returned mapping is {o.value[1]!r}, the substitution that was applied is {want_map!r}"
     return None
 
 
-def _judge_total(o: Outcome, doc, cat, col, old: List[str]) -> Optional[str]:
+def _judge_total(o: Outcome, doc, cat, col, old: List[str], values: str = "") -> Optional[str]:
+    """A normal return although the item has more distinct values than the alphabet has symbols.  The result must be the
+    image of a total, injective mapping into the alphabet - which cannot exist (pigeonhole): the reason found first is named."""
     if not (isinstance(o.value, tuple) and len(o.value) == 2 and isinstance(o.value[1], dict)):
         return f"the result {_short(o.value)} is not (text, mapping)"
     got = parse(o.value[0])
@@ -1682,6 +1767,10 @@ def _judge_total(o: Outcome, doc, cat, col, old: List[str]) -> Optional[str]:
         return f"the mapping {mp!r} is not injective: distinct values are merged (column becomes {new})"
     if new != [mp[v] for v in old]:
         return f"the column {new} is not the image of the returned mapping {mp!r}"
+    outside = [v for v in dict.fromkeys(old) if not (isinstance(mp[v], str) and mp[v] in list(values))]
+    if outside:
+        kept = all(mp[v] == v for v in outside)
+        return f"the values {outside} get the images {[mp[v] for v in outside]}, which are not symbols of the alphabet {values!r}" + (": they are kept as they are next to substituted ones, so the item is not the image of a mapping into the alphabet and a kept value can collide with a symbol handed out for another one" if kept else "") + f" (column becomes {new})"
     return None
 
 
